@@ -13,7 +13,7 @@
    blockshape, rate, trace count, array length and 4 header arrays (C03b_zgy_header_conforms, by the same lemmas as
    C03_converter_header_conforms); the table holds 115 = n_samples, 117 = int(1000*zinc), 71 = -100, names exactly 181, 185,
    189, 193 as stored arrays and nothing else (C03b_zgy_table_entries / _values); the footer is exactly those four arrays in
-   that order, 4 bytes per grid trace, at the stride a reader derives (C03b_zgy_footer_layout); every field of every trace
+   that order, 4 bytes per trace of the converted WINDOW (any window; D54 repaired), at the stride a reader derives (C03b_zgy_footer_layout); every field of every trace
    read back through the reader model, on both access paths, is the expected constant or word t of the expected array
    (C03b_zgy_readback); the source code is 10 / 30 / 0 / 100 (NumPy 20) at the bytes get_file_source_code reads
    (C03b_source_codes); the fields written after make_header (76:84, and 84:100 for ZGY only) overlap no field of
@@ -22,7 +22,7 @@
    to it with the pyvds handle's headers. *)
 From Coq Require Import ZArith List Bool Lia.
 Import ListNotations.
-From SZ Require Import Lib.Py Gen.Reader Gen.Header Gen.Headers Gen.Routes Spec.Container Model.Writer Model.Headers Model.HeaderW
+From SZ Require Import Lib.Py Gen.Reader Gen.Header Gen.Headers Gen.Window Gen.Routes Spec.Container Model.Writer Model.Headers Model.HeaderW
                        Model.Routes Proofs.Writer Proofs.Headers Proofs.Routes.
 Open Scope Z_scope.
 
@@ -68,23 +68,39 @@ Theorem C03b_zgy_stored_order : forall fields tv, wf_fields fields = true -> (fo
 Proof. intros fields tv W K. rewrite (zgy_selfs fields tv W K). split; reflexivity. Qed.
 Print Assumptions C03b_zgy_stored_order.
 
-Theorem C03b_zgy_footer_layout : forall fields tv arr n_il n_xl ndb,
-  wf_fields fields = true -> (forall k, In k zgy_keys -> In k fields) -> 1 <= n_il -> 1 <= n_xl ->
-  let F := zgy_write fields tv arr n_il n_xl ndb in
-  f_count F = 4 /\ f_hel F = 4 * (n_il * n_xl) /\ f_tracecount F = n_il * n_xl /\
+(* ANY window 0 <= min_il < max_il <= n_il, 0 <= min_xl < max_xl <= n_xl of an (n_il, n_xl) source (win_ok); the conversion without
+   a window is whole n_il n_xl = (0, n_il, 0, n_xl) as detect_geometry makes it (Gen/Window.v).  D54 repaired: the generated arrays
+   are cropped to the window (Gen/Routes.v: zgy_crop_row_lo .. zgy_crop_col_hi), so the footer holds 4 bytes per WINDOW trace = the stated array length *)
+Theorem C03b_zgy_footer_layout : forall fields tv arr n_il n_xl w ndb,
+  wf_fields fields = true -> (forall k, In k zgy_keys -> In k fields) -> win_ok w n_il n_xl = true ->
+  let F := zgy_wwrite fields tv arr n_il n_xl w ndb in
+  let G := (wi1 w - wi0 w) * (wx1 w - wx0 w) in
+  f_count F = 4 /\ f_hel F = 4 * G /\ f_tracecount F = G /\ Model.Headers.f_nil F = wi1 w - wi0 w /\ Model.Headers.f_nxl F = wx1 w - wx0 w /\
   map (fun s => match s with (pos, len, pd, _) => (pos, len, pd) end) (f_footer F)
-  = map (fun k => (4096 * 2 + 4096 * ndb + k * (4 * (n_il * n_xl) + hx_wr_pad (4 * (n_il * n_xl))), 4 * (n_il * n_xl),
-                   hx_wr_pad (4 * (n_il * n_xl)))) [0; 1; 2; 3] /\
-  hx_rd_padded (f_hel F) = 4 * (n_il * n_xl) + hx_wr_pad (4 * (n_il * n_xl)).
+  = map (fun k => (4096 * 2 + 4096 * ndb + k * (4 * G + hx_wr_pad (4 * G)), 4 * G, hx_wr_pad (4 * G))) [0; 1; 2; 3] /\
+  hx_rd_padded (f_hel F) = 4 * G + hx_wr_pad (4 * G).
 Proof. exact zgy_footer_layout. Qed.
 Print Assumptions C03b_zgy_footer_layout.
 
-Theorem C03b_zgy_readback : forall fields tv arr n_il n_xl ndb,
-  wf_fields fields = true -> (forall k, In k zgy_keys -> In k fields) -> 1 <= n_il -> 1 <= n_xl ->
-  forall la t f, 0 <= t < n_il * n_xl -> In f fields ->
-  read_field fields (zgy_write fields tv arr n_il n_xl ndb) la t f = Return (zgy_expected tv arr f t).
+(* the array length of the window header is the same expression in all three generated views of make_header *)
+Theorem C03b_window_array_length_field : forall xlines ilines gi0 gx0 tc rn rd ns g_ntr bs0 bs1 bs2 na ve gni gnx,
+  hx_hel_3d gnx gni = Gen.Window.w_hdr_hel xlines ilines gi0 gx0 gni gnx tc /\
+  hx_hel_3d gnx gni = mh_field_60 rn rd ns gni gnx g_ntr tc bs0 bs1 bs2 na ve false false.
+Proof. exact hel_agree. Qed.
+Print Assumptions C03b_window_array_length_field.
+
+Theorem C03b_zgy_readback : forall fields tv arr n_il n_xl w ndb,
+  wf_fields fields = true -> (forall k, In k zgy_keys -> In k fields) -> win_ok w n_il n_xl = true ->
+  forall la t f, 0 <= t < win_nil w * win_nxl w -> In f fields ->
+  read_field fields (zgy_wwrite fields tv arr n_il n_xl w ndb) la t f = Return (zgy_expected tv arr f t).
 Proof. exact zgy_readback. Qed.
 Print Assumptions C03b_zgy_readback.
+
+Theorem C03b_whole_file_window : forall n_il n_xl, 1 <= n_il -> 1 <= n_xl ->
+  win_ok (whole n_il n_xl) n_il n_xl = true /\ wi0 (whole n_il n_xl) = 0 /\ wi1 (whole n_il n_xl) = n_il /\
+  wx0 (whole n_il n_xl) = 0 /\ wx1 (whole n_il n_xl) = n_xl.
+Proof. exact whole_ok. Qed.
+Print Assumptions C03b_whole_file_window.
 
 Theorem C03b_zgy_expected : forall tv arr t,
   zgy_expected tv arr 115 t = tv TVNSamples /\ zgy_expected tv arr 117 t = tv (TVTrunc (RMul (RInt 1000) RZinc)) /\
@@ -122,8 +138,9 @@ Print Assumptions C03b_vds_is_the_segy_header_route.
 Example C03b_nonvacuous :
   wf_fields segy_fields = true /\ (forall k, In k zgy_keys -> In k segy_fields) /\
   cfg3 8 1 9 5 6 4 4 256 = true /\ fields_ok 8 1 9 5 6 0 30 4 4 256 4 4199 false false = true /\
-  header_array_count (zgy_table segy_fields (ztv_of 9 (zgy_env f_zero f_zero (fun _ _ => f_zero) 5 6))) = 4.
+  header_array_count (zgy_table segy_fields (ztv_of 9 (zgy_env f_zero f_zero (fun _ _ => f_zero) 5 6))) = 4 /\
+  win_ok {| wi0 := 1; wi1 := 4; wx0 := 0; wx1 := 3 |} 5 5 = true.
 Proof.
   destruct segy_fields_ok as [W K]. split; [exact W|]. split; [exact K|].
-  split; [vm_compute; reflexivity|]. split; [vm_compute; reflexivity|]. apply zgy_array_count; assumption.
+  split; [vm_compute; reflexivity|]. split; [vm_compute; reflexivity|]. split; [apply zgy_array_count; assumption | reflexivity].
 Qed.
